@@ -305,7 +305,7 @@ def r3(cx, rec):
                     for b2 in mirq.real_calls(cnt):
                         x = cnt.expr_call(b2)
                         if x[4].get('name') == 'filter':
-                            clo = [y for y in walk(x) if y[0] == 'closure']
+                            clo = [y for y in walk(x) if y[0] in ('closure', 'fn') and F.fns.get(y[1]) is not None]
                             src = access_path(x[2][0]) or ''
                             if clo and 'peers' in src:
                                 tt = closure_truth(F, F.fn(clo[0][1]))
